@@ -882,3 +882,89 @@ func runStepProgress(p *Program, r *RuleResult) {
 }
 
 func accessPathHasIndex(ap string) bool { return strings.Contains(ap, "[]") }
+
+// R-FAMILY-CONSISTENT (C03, C04, C01): a process keeps running under the interpreter it was
+// started under.
+func init() {
+	register(&Rule{Name: "R-FAMILY-CONSISTENT", Min: 20,
+		Doc: "the two interpreters (polarized: methods Transition; non-polarized: methods TransitionNP) each have their own step loop and spawn function, found by role (the *Process method that dispatches the family's method on the body; the function that starts it on a goroutine). No transition method or rule closure of one family re-enters the loop, or spawns through the spawn function, of the other family: the process (and everything it spawns) would go on under rules that do not serve the other interpreter's control messages",
+		Run: runFamilyConsistent})
+}
+
+func runFamilyConsistent(p *Program, r *RuleResult) {
+	fams := []string{"Transition", "TransitionNP"}
+	loops := map[string]map[*ssa.Function]bool{}
+	spawns := map[string]map[*ssa.Function]bool{}
+	for _, f := range fams {
+		loops[f] = map[*ssa.Function]bool{}
+		spawns[f] = map[*ssa.Function]bool{}
+	}
+	for _, fn := range p.SrcFuncs {
+		if fn.Pkg == nil || fn.Pkg.Pkg.Path() != processPkg || fn.Blocks == nil {
+			continue
+		}
+		for _, c := range p.callsIn(fn) {
+			com := c.Common()
+			if com.IsInvoke() {
+				for _, f := range fams {
+					if com.Method.Name() == f && fn.Signature.Recv() != nil && isNamed(fn.Signature.Recv().Type(), processPkg, "Process") {
+						loops[f][fn] = true
+					}
+				}
+			}
+		}
+	}
+	for _, fn := range p.SrcFuncs {
+		if fn.Pkg == nil || fn.Pkg.Pkg.Path() != processPkg || fn.Blocks == nil {
+			continue
+		}
+		for _, c := range p.callsIn(fn) {
+			if g, ok := c.(*ssa.Go); ok {
+				for _, f := range fams {
+					if loops[f][g.Common().StaticCallee()] {
+						spawns[f][fn] = true
+					}
+				}
+			}
+		}
+	}
+	for _, f := range fams {
+		if len(loops[f]) == 0 || len(spawns[f]) == 0 {
+			r.add(processPkg, "family-anchors:"+f, Undecided, "", "the step loop or the spawn function of this interpreter was not found")
+			return
+		}
+	}
+	other := map[string]string{"Transition": "TransitionNP", "TransitionNP": "Transition"}
+	form := p.Named(processPkg, "Form")
+	n := 0
+	for _, T := range p.Implementers(form) {
+		for _, f := range fams {
+			root := p.MethodOpt(T, f)
+			if root == nil || root.Blocks == nil {
+				continue
+			}
+			for _, fn := range append([]*ssa.Function{root}, allAnon(root)...) {
+				n++
+				bad := ""
+				for _, c := range p.callsIn(fn) {
+					sc := c.Common().StaticCallee()
+					if sc == nil {
+						continue
+					}
+					if loops[other[f]][sc] {
+						bad = fmt.Sprintf("it continues with %s, the step loop of the other interpreter, at %s", sc.Name(), p.instrPos(c))
+					}
+					if spawns[other[f]][sc] {
+						bad = fmt.Sprintf("it spawns through %s, the spawn function of the other interpreter, at %s", sc.Name(), p.instrPos(c))
+					}
+				}
+				if bad != "" {
+					r.add(fnName(fn), f+":stays-in-its-interpreter", Violated, p.pos(fn.Pos()), bad+": from there on the process runs under the other interpreter's rules, which do not serve this interpreter's control messages (forward, split, duplicate requests are never taken)")
+				} else {
+					r.add(fnName(fn), f+":stays-in-its-interpreter", Holds, p.pos(fn.Pos()), "")
+				}
+			}
+		}
+	}
+	r.count("transition functions and closures", n)
+}
